@@ -35,6 +35,31 @@ class Acct:
         self.box = box
         self.owner = owner
 
+class Node:
+    def __init__(self, payload: object, weight: int) -> None:
+        self.payload = payload
+        self.weight = weight
+
+def make_pair(p: object, n: int) -> Tuple[Node, int]:
+    return Node(p, n), n
+
+def make_nested(p: object, n: int) -> Tuple[Tuple[Node, object], int]:
+    return (Node(p, n), p), n
+
+class Holder:
+    def __init__(self, item: object, n: int) -> None:
+        self.item = item
+        self.extra = [item]
+        if n == 2:
+            raise Err(item)
+        self.n = n
+
+def try_hold(x: object, n: int) -> object:
+    try:
+        return Holder(x, n)
+    except Err:
+        return None
+
 def set_total(ac: Acct, v: int) -> int:
     ac.total = v
     return 1
@@ -218,7 +243,53 @@ class FnGen:
                 else:
                     continue
                 self.constructs.append("unboxed-tuple")
-            elif k >= 23:
+            elif k == 23:
+                # an item of a temporary / dead unboxed tuple, read in a borrowing context
+                v = self.fresh("t")
+                c = r.randrange(5)
+                if c == 0:
+                    out.append(f"{ind}{v} = make_pair({self.obj()}, n)[0].payload")
+                elif c == 1:
+                    q = self.fresh("q")
+                    out.append(f"{ind}{q} = make_pair({self.obj()}, BIG + n)")
+                    out.append(f"{ind}{v} = {q}[0].payload")
+                elif c == 2:
+                    out.append(f"{ind}{v}: object = make_pair({self.obj()}, BIG + n)[0].weight")
+                elif c == 3:
+                    out.append(f"{ind}{v} = make_nested({self.obj()}, n)[0][0].payload")
+                else:
+                    out.append(f"{ind}{v} = make_nested({self.obj()}, n)[0][1]")
+                self.objs.append(v)
+                self.constructs.append("tuple-item-attr")
+            elif k == 24:
+                # a native constructor whose __init__ raises for n == 2, after it has stored its arguments
+                v = self.fresh("t")
+                if r.random() < 0.5:
+                    out.append(f"{ind}{v} = try_hold({self.obj()}, n)")
+                else:
+                    out.append(f"{ind}try:")
+                    out.append(f"{ind}    {v}: object = Holder({self.obj()}, n + {r.randrange(3)}).item")
+                    out.append(f"{ind}except Err:")
+                    out.append(f"{ind}    {v} = {self.obj()}")
+                self.objs.append(v)
+                self.constructs.append("raising-constructor")
+            elif k == 25:
+                # dict.get with a key that cannot be hashed (a list behind an object-typed value)
+                dd, v = self.fresh("d"), self.fresh("t")
+                out.append(f"{ind}{dd}: Dict[object, object] = {{{self.obj()}: {self.obj()}}}")
+                key = r.choice([self.obj(), "xs", "xs"])
+                if r.random() < 0.5:
+                    out.append(f"{ind}{v} = {dd}.get({key})")
+                    out.append(f"{ind}if {v} is None:")
+                    out.append(f"{ind}    {v} = {self.obj()}")
+                else:
+                    out.append(f"{ind}try:")
+                    out.append(f"{ind}    {v} = {dd}.get({key})")
+                    out.append(f"{ind}except TypeError:")
+                    out.append(f"{ind}    {v} = {self.obj()}")
+                self.objs.append(v)
+                self.constructs.append("dict-get-hostile-key")
+            elif k >= 26:
                 continue
             elif k == 16:
                 # results that nobody uses
